@@ -134,7 +134,11 @@ def gen_stmt(rng, current):
                           f"INSERT INTO {t} (a) SELECT 1 FROM mysql.user"])
         return sql, "(mk_stmt KOther [])", "app", current
     t, _ = user_table(rng, True)
-    return rng.choice([f"EXPLAIN SELECT a FROM {t}", f"DESCRIBE SELECT a FROM {t}"]), "(mk_stmt KDescribeSelect [])", "app", current
+    # EXPLAIN / DESCRIBE of a statement - a SELECT, a UNION, a parenthesised query, DML: the application's (only the
+    # description of a TABLE is the library's)
+    return rng.choice([f"EXPLAIN SELECT a FROM {t}", f"DESCRIBE SELECT a FROM {t}", f"EXPLAIN SELECT a FROM {t} UNION SELECT a FROM db.u",
+                       f"DESCRIBE SELECT a FROM {t} UNION ALL SELECT 1", f"EXPLAIN (SELECT a FROM {t})", f"EXPLAIN FORMAT=JSON SELECT a FROM {t}",
+                       f"EXPLAIN INSERT INTO {t} VALUES (1)", f"EXPLAIN UPDATE {t} SET a = 1", f"EXPLAIN DELETE FROM {t} WHERE a = 1"]), "(mk_stmt KDescribeSelect [])", "app", current
 
 
 class RouteSession(impl.Session):
